@@ -291,7 +291,12 @@ class SegmModel:
         from .objeval import ObjEvaluator, PyRaise
         from .symeval import Arr, RaiseReached, sym_array, const_int, materialise, _Return
         from .poly import Rat
-        ev = ObjEvaluator(self.mod, inline=set(), max_depth=8, sign_policy=lambda d, node=None: sign)
+        def walk_started(name, args, kwargs, node):
+            # the prefix ends where the walk begins: its first use of the metric or of the reflection conditions
+            if name in ("sintl", "sysabs", "sysabs_unique"):
+                raise AnalysisError("genhkl_base: the walk starts (call of %s, line %d)" % (name, getattr(node, "lineno", 0)))
+            return NotImplemented
+        ev = ObjEvaluator(self.mod, inline=set(), max_depth=8, sign_policy=lambda d, node=None: sign, call_policy=walk_started)
         fn = self.fn
         env = {}
         given = {"Laue_class": Laue, "cell_choice": cc, "crystal_system": csys if csys is not None else "triclinic",
